@@ -12,6 +12,7 @@ witnesses of known finding K-C16-straddle show that the full statement fails oth
 -/
 import MetricsVerif.Proofs.Reservoir
 import MetricsVerif.Proofs.ReservoirConc
+import MetricsVerif.Proofs.ReservoirPushers
 import MetricsVerif.Proofs.SrcShapes
 import MetricsVerif.Generated.SourceFacts
 
@@ -177,6 +178,196 @@ theorem forget_breaks_next_drain :
     let (a1, d1) := a.consumeForget
     let (a2, _) := a1.consume
     d1.values = [1, 2] ∧ a2.consume.2.values = [1, 2] := by
+  decide
+
+/-! ## concurrent pushers (any number of threads, every schedule, no drain in flight): counts and retention
+
+An *epoch of pushers* starts in a state where every thread is between two operations and the active side has been
+reset (the initial state; any state after a drain that overlapped no push), and is a schedule none of whose grants
+executes a step of `consume` (`pushOnlySched`).  `pendingOf s0.threads` lists the values the threads push before
+their next `consume`; the hypothesis `hdone` says that all these pushes have completed. -/
+
+/-- **conc_pushers_epoch_exact.** Any number of pusher threads, EVERY schedule of their steps (`use_primary.load`,
+    `fetch_add`, slot store — interleaved in any way, stores overtaking each other, replacement stores landing before
+    the fill store of the same slot, …): once all pushes have completed, the drain that comes next
+    * reports exactly the number of pushes made (`unsampled = n`),
+    * yields exactly `min(n, capacity)` values,
+    * yields only values that were pushed, and no push more than once (sub-multiset: no invention, no duplication),
+    * yields ALL pushed values when `n ≤ capacity` (as a rearrangement: with several pushers slot order is claim
+      order, not program order),
+    * reports `sample_rate = yielded / pushed`;
+    and the epoch leaves every thread between operations, the lock and the recorded drains untouched. -/
+theorem conc_pushers_epoch_exact (s0 : Sys) (cap : Nat) (sched : List Nat)
+    (hidle : ∀ th ∈ s0.threads, th.pc = .idle)
+    (hlen : s0.asr.active.slots.length = cap) (hcnt : s0.asr.active.count = 0)
+    (hsched : pushOnlySched s0 sched = true)
+    (hdone : ∀ th ∈ (crun s0 sched).threads, pushPrefix th.prog = []) :
+    let d := (crun s0 sched).asr.consume.2
+    let tot := pendingOf s0.threads
+    d.unsampled = tot.length ∧ d.len = min tot.length cap ∧ d.values.length = min tot.length cap
+    ∧ (∀ x, d.values.count x ≤ tot.count x)
+    ∧ (tot.length ≤ cap → d.values.Perm tot)
+    ∧ d.rate.1 * tot.length = d.values.length * d.rate.2 ∧ 0 < d.rate.2
+    ∧ (crun s0 sched).asr.usePrimary = s0.asr.usePrimary ∧ (crun s0 sched).locked = s0.locked
+    ∧ (crun s0 sched).drains = s0.drains ∧ ∀ th ∈ (crun s0 sched).threads, th.pc = .idle := by
+  obtain ⟨⟨sh, h⟩, hl, hd⟩ := (PInv.start s0.asr s0.threads cap hidle hlen hcnt).run sched hsched
+  obtain ⟨hc, hsub, hid⟩ := h.done hdone
+  have hact : (crun s0 sched).asr.active = (crun s0 sched).asr.side s0.asr.usePrimary := by
+    rw [active_eq_side, h.up]
+  have hslen := h.len
+  simp only
+  rw [consume_out, hact]
+  have hv : ((crun s0 sched).asr.side s0.asr.usePrimary).drain.values
+      = ((crun s0 sched).asr.side s0.asr.usePrimary).slots.take (min (pendingOf s0.threads).length cap) := by
+    rw [drain_values, hc, hslen]
+  have hvl : ((crun s0 sched).asr.side s0.asr.usePrimary).drain.values.length = min (pendingOf s0.threads).length cap := by
+    rw [hv, List.length_take, hslen]; omega
+  have hlen' : ((crun s0 sched).asr.side s0.asr.usePrimary).drain.len = min (pendingOf s0.threads).length cap := by
+    rw [drain_len, hc, hslen]
+  have hsub' : ∀ x, ((crun s0 sched).asr.side s0.asr.usePrimary).drain.values.count x ≤ (pendingOf s0.threads).count x := by
+    intro x; rw [hv]; exact hsub x
+  refine ⟨hc, hlen', hvl, hsub', ?_, ?_, ?_, h.up, hl, hd, hid⟩
+  · intro hle
+    exact perm_of_count_le_of_length_eq _ _ hsub' (by rw [hvl]; omega)
+  · simp only [DrainOut.rate, drain_unsampled, hlen', hc, hvl]
+    split
+    · omega
+    · rfl
+  · simp only [DrainOut.rate]
+    split
+    · exact Nat.one_pos
+    · rename_i hne
+      simp only [drain_unsampled, hlen', hc] at hne ⊢
+      omega
+
+/-- **conc_pushers_first_epoch.** The same from the initial state: thread programs `progs` (any number of threads),
+    any schedule that grants no `consume` step, all pushes (before each thread's first `consume`) completed: the first
+    drain reports `n` = the number of these pushes, yields `min(n, cap)` of their values, each push at most once. -/
+theorem conc_pushers_first_epoch (cap : Nat) (progs : List (List COp)) (sched : List Nat)
+    (hsched : pushOnlySched (Sys.init cap progs) sched = true)
+    (hdone : ∀ th ∈ (crun (Sys.init cap progs) sched).threads, pushPrefix th.prog = []) :
+    let d := (crun (Sys.init cap progs) sched).asr.consume.2
+    let tot := progs.flatMap pushPrefix
+    d.unsampled = tot.length ∧ d.len = min tot.length cap ∧ d.values.length = min tot.length cap
+    ∧ (∀ x, d.values.count x ≤ tot.count x) ∧ (tot.length ≤ cap → d.values.Perm tot)
+    ∧ d.rate.1 * tot.length = d.values.length * d.rate.2 ∧ 0 < d.rate.2 := by
+  have e : pendingOf (Sys.init cap progs).threads = progs.flatMap pushPrefix := by
+    simp [pendingOf, Sys.init, List.flatMap_map]
+  have h := conc_pushers_epoch_exact (Sys.init cap progs) cap sched
+    (by intro th hth; simp only [Sys.init, List.mem_map] at hth; obtain ⟨_, _, rfl⟩ := hth; rfl)
+    (by simp [Sys.init, ASR.new, ASR.active]) (by simp [Sys.init, ASR.new, ASR.active]) hsched hdone
+  simp only [e] at h
+  exact ⟨h.1, h.2.1, h.2.2.1, h.2.2.2.1, h.2.2.2.2.1, h.2.2.2.2.2.1, h.2.2.2.2.2.2.1⟩
+
+/-- **conc_pushers_then_drain_exact.** End to end with the consumer in the machine: after an epoch of pushers (as in
+    `conc_pushers_epoch_exact`), a thread `t` whose next operation is `consume` takes the free lock; WHATEVER is
+    scheduled afterwards (further pushes of any thread — they go to the other side —, other consumers queueing), the
+    next drain recorded is `t`'s and it is exact: it reports all `n` pushes of the epoch, yields `min(n, cap)` values,
+    all of them pushed in the epoch and no push twice, and `sample_rate · n = yielded`. -/
+theorem conc_pushers_then_drain_exact (s0 : Sys) (cap : Nat) (sched1 : List Nat)
+    (hidle : ∀ th ∈ s0.threads, th.pc = .idle)
+    (hlen : s0.asr.active.slots.length = cap) (hcnt : s0.asr.active.count = 0)
+    (hsched : pushOnlySched s0 sched1 = true)
+    (hdone : ∀ th ∈ (crun s0 sched1).threads, pushPrefix th.prog = [])
+    (hfree : s0.locked = false)
+    (t : Nat) (asked : List (Option Nat)) (rest : List COp)
+    (ht : (crun s0 sched1).threads[t]? = some { prog := .consume :: rest, pc := .idle, asked := asked })
+    (sched2 : List Nat) :
+    let tot := pendingOf s0.threads
+    (crun s0 (sched1 ++ t :: sched2)).drains = s0.drains
+    ∨ ∃ d tail, (crun s0 (sched1 ++ t :: sched2)).drains = s0.drains ++ [(t, d)] ++ tail
+        ∧ d.unsampled = tot.length ∧ d.values.length = min tot.length cap
+        ∧ (∀ x, d.values.count x ≤ tot.count x) ∧ (tot.length ≤ cap → d.values.Perm tot)
+        ∧ d.rate.1 * tot.length = d.values.length * d.rate.2 ∧ 0 < d.rate.2 := by
+  have h := conc_pushers_epoch_exact s0 cap sched1 hidle hlen hcnt hsched hdone
+  simp only at h
+  obtain ⟨h1, _, h3, h4, h5, h6, h7, _, h9, h10, h11⟩ := h
+  have hq : ∀ (i : Nat) (th : Thread), (crun s0 sched1).threads[i]? = some th →
+      th.midPushOn (crun s0 sched1).asr.usePrimary = false ∧ ∀ q u l vs, th.pc ≠ .reading q u l vs := by
+    intro i th hi
+    have := h11 th (List.mem_of_getElem? hi)
+    simp [Thread.midPushOn, this]
+  have hrun : crun s0 (sched1 ++ t :: sched2) = crun (cstep (crun s0 sched1) t) sched2 := by
+    simp [crun, List.foldl_append]
+  rw [hrun]
+  rcases conc_quiescent_drain_exact_partial (crun s0 sched1) t asked rest ht (by rw [h9, hfree]) hq sched2 with e | ⟨tail, e⟩
+  · left; rw [e, h10]
+  · right
+    exact ⟨_, tail, by rw [e, h10], h1, h3, h4, h5, h6, h7⟩
+
+/-- **conc_retention_is_sequential_on_claim_order_partial.** The index a push works with is its claim order (the
+    result of its own `fetch_add`).  For every epoch of pushers whose slot stores land in claim order
+    (`storesInOrder`: no store step overtakes a push that claimed a smaller index and has not stored yet), the side is,
+    after all pushes completed, EXACTLY the state sequential `Reservoir::push` reaches on the pushes taken in claim
+    order (`claimLog`) with the same random choices — so everything proved about sequential streams (`drain_sound`,
+    `retained_values`, `uniform`) applies with "stream position" read as "claim order".
+    Without `storesInOrder` this is false of the code: `conc_late_store_breaks_uniformity`. -/
+theorem conc_retention_is_sequential_on_claim_order_partial (s0 : Sys) (sched : List Nat)
+    (hidle : ∀ th ∈ s0.threads, th.pc = .idle) (hcnt : s0.asr.active.count = 0)
+    (hsched : pushOnlySched s0 sched = true) (hord : storesInOrder s0 sched = true)
+    (hdone : ∀ th ∈ (crun s0 sched).threads, pushPrefix th.prog = []) :
+    (crun s0 sched).asr.active = seqRun s0.asr.active (claimLog s0 sched)
+    ∧ (crun s0 sched).asr.consume.2 = (seqRun s0.asr.active (claimLog s0 sched)).drain := by
+  obtain ⟨k, h⟩ := (BInv.start s0.asr s0.threads hidle hcnt).run sched hsched hord
+  have h1 := h.done hdone
+  simp only [List.nil_append] at h1
+  have hact : (crun s0 sched).asr.active = seqRun s0.asr.active (claimLog s0 sched) := by
+    rw [active_eq_side, h.up]; exact h1
+  exact ⟨hact, by rw [consume_out, hact]⟩
+
+/-- **conc_in_order_drain_is_retained.** … in the vocabulary of `uniform`: from the initial state, with at least
+    `cap` pushes and stores in claim order, the first drain yields exactly the values at the claim positions
+    `retained cap cs`, where `cs` are the random choices of the pushes that claimed the indices `cap, cap+1, …`, in
+    claim order.  `uniform` counts, over all such `cs`, how often each position is in `retained cap cs`: `cap/n` of
+    them, for every position — i.e. no CLAIM position is favoured. -/
+theorem conc_in_order_drain_is_retained (cap : Nat) (progs : List (List COp)) (sched : List Nat)
+    (hsched : pushOnlySched (Sys.init cap progs) sched = true)
+    (hord : storesInOrder (Sys.init cap progs) sched = true)
+    (hdone : ∀ th ∈ (crun (Sys.init cap progs) sched).threads, pushPrefix th.prog = [])
+    (hn : cap ≤ (claimLog (Sys.init cap progs) sched).length) :
+    let log := claimLog (Sys.init cap progs) sched
+    (crun (Sys.init cap progs) sched).asr.consume.2.values
+      = (retained cap ((log.drop cap).map (·.2))).map (fun k => (log.getD k (0, 0)).1) := by
+  have h := (conc_retention_is_sequential_on_claim_order_partial (Sys.init cap progs) sched
+    (by intro th hth; simp only [Sys.init, List.mem_map] at hth; obtain ⟨_, _, rfl⟩ := hth; rfl)
+    (by simp [Sys.init, ASR.new, ASR.active]) hsched hord hdone).2
+  have ha : (Sys.init cap progs).asr.active = Res.new cap := by simp [Sys.init, ASR.new, ASR.active]
+  simp only
+  rw [h, ha, seqRun_as_stream _ [] (Res.new cap) rfl]
+  simp only [List.nil_append]
+  have hsplit : (claimLog (Sys.init cap progs) sched).map (·.2)
+      = ((claimLog (Sys.init cap progs) sched).take cap).map (·.2)
+        ++ ((claimLog (Sys.init cap progs) sched).drop cap).map (·.2) := by
+    rw [← List.map_append, List.take_append_drop]
+  rw [hsplit]
+  have h0 : (((claimLog (Sys.init cap progs) sched).take cap).map (·.2)).length = cap := by
+    rw [List.length_map, List.length_take]; omega
+  exact drain_values_of_positions (fun k => ((claimLog (Sys.init cap progs) sched).getD k (0, 0)).1) cap _ _ h0
+
+/-- **conc_late_store_breaks_uniformity** (the restriction to stores in claim order is necessary; replayed on the real
+    code by the harness, `conc corpus late store`).  Capacity 1, two pushers: thread 0 claims index 0 and is delayed
+    before its store; thread 1 claims index 1, draws its replacement slot and stores; then thread 0 stores into slot 0.
+    For EITHER random choice of thread 1 the drain yields thread 0's value: claim position 0 is retained under 2 of 2
+    choice vectors, position 1 under 0 of 2 (`uniform` says 1 of 2 each), and for choice 0 the result differs from
+    sequential `push` on the claim order (which retains position 1).  The counts are still exact. -/
+theorem conc_late_store_breaks_uniformity :
+    ∀ c, c < 2 →
+      (crun (Sys.init 1 [[.push 10 0], [.push 11 c]]) [0, 0, 1, 1, 1, 0]).finished = true
+      ∧ pushOnlySched (Sys.init 1 [[.push 10 0], [.push 11 c]]) [0, 0, 1, 1, 1, 0] = true
+      ∧ storesInOrder (Sys.init 1 [[.push 10 0], [.push 11 c]]) [0, 0, 1, 1, 1, 0] = false
+      ∧ claimLog (Sys.init 1 [[.push 10 0], [.push 11 c]]) [0, 0, 1, 1, 1, 0] = [(10, 0), (11, c)]
+      ∧ (crun (Sys.init 1 [[.push 10 0], [.push 11 c]]) [0, 0, 1, 1, 1, 0]).asr.consume.2
+          = { values := [10], unsampled := 2, len := 1 }
+      ∧ (seqRun (Res.new 1) [(10, 0), (11, 0)]).drain.values = [11]
+      ∧ (seqRun (Res.new 1) [(10, 0), (11, 1)]).drain.values = [10] := by
+  decide
+
+/-- the same two pushes with the stores in claim order: the drain depends on the choice as `uniform` counts it -/
+theorem conc_in_order_two_pushers_uniform :
+    ∀ c, c < 2 →
+      storesInOrder (Sys.init 1 [[.push 10 0], [.push 11 c]]) [0, 0, 1, 1, 0, 1] = true
+      ∧ (crun (Sys.init 1 [[.push 10 0], [.push 11 c]]) [0, 0, 1, 1, 0, 1]).asr.consume.2.values
+          = (if c = 0 then [11] else [10]) := by
   decide
 
 /-! ## the code before the repair (`fastrand(idx)`), kept as witnesses of the two defects -/
